@@ -22,11 +22,15 @@ RULE = ("objects of every kind (network, grid, graph, system, script, trajectory
         "spec (1-4 species, 0-4 reactions with orders 0-4 per side, empty sides, repeated species, labelled/unlabelled, "
         "scalar or per-environment D/density/chstt/k with and without 'default'; grids 1-3^3 with all boundary "
         "combinations; graphs with own node/edge units; explicit/default state and chemostats; all policies/modes) with "
-        "an independent units system at every level, explicit zero stoichiometric coefficients (first / middle / last); streams and "
+        "an independent units system at every level, values spanning 1e-30 … 1e+23 incl. numbers below 1e-12 (ordinary sizes carried in "
+        "m / km / mol / h) and 15-17 significant digits in every quantity-valued field (compared exactly: repr round trip), explicit zero stoichiometric coefficients (first / middle / last); streams and "
         "the clause each tests: [round trip: dict / JSON text / save+load, absolute and relative paths] modes direct, json, file-abs, "
         "file-rel, file-inline; [serialising again gives the same dictionary] reserialise; [aliases interchangeable] alias + "
         "documented-alias table; [omitted keys take the documented defaults] default + minimal dictionaries; [multi-file layouts, "
-        "external array files] multifile, multifile-inherit; [save/load under any valid file name, both trajectory storage modes] "
+        "external array files, relative paths resolved against the enclosing file] multifile, multifile-inherit and every file "
+        "load, all run FROM A WORKING DIRECTORY HOLDING DECOY FILES with the same relative names and different content; "
+        "[units inheritance: \"default\" / \"inherit\" strings at every nesting level under non-default parents, every alias of "
+        "the key, quantities as bare numbers] units-strings + fixed minimal dictionaries; [save/load under any valid file name, both trajectory storage modes] "
         "file-names: families of names whose stems end in characters of '.json' saved TOGETHER in one directory, then all reloaded, "
         "data file name and reference checked; [readers return independent objects holding the documented defaults] sequences: "
         "read -> edit every units system / state array of the result in place -> read the same dictionary again (must equal the first "
@@ -93,15 +97,24 @@ def rand_sys(rng, near=None):
     return (rng.choice(SPACE), rng.choice(TIME), rng.choice(QTY))
 
 
+MANY_DIGITS = [1.0 / 3.0, 0.1 + 0.2, 2.0 / 3.0, 1e-13 / 3.0, 123.45678901234567, 6.02214076e23 / 7.0, 0.000123456789012345678]
+
+
 def rand_val(rng):
     r = rng.random()
-    if r < 0.15:
+    if r < 0.12:
         return 0.0
-    if r < 0.35:
+    if r < 0.27:
         return float(rng.randint(1, 20))
-    if r < 0.8:
+    if r < 0.55:
         return float(Fraction(rng.randint(1, 9999), 10 ** rng.randint(0, 4)))
-    return float(rng.randint(1, 999)) * 10.0 ** rng.randint(-12, 12)
+    if r < 0.68:
+        return float(rng.randint(1, 999)) * 10.0 ** rng.randint(-12, 12)
+    if r < 0.80:      # ordinary physical sizes carried in coarse units (m, km, mol, h): 1e-13 … 1e-30
+        return float(rng.randint(1, 999)) * 10.0 ** rng.randint(-30, -13)
+    if r < 0.93:      # 15-17 significant digits (truncating / rounding writers are invisible on round numbers)
+        return rng.random() * 10.0 ** rng.randint(-20, 6)
+    return rng.choice(MANY_DIGITS)
 
 
 def gen_q(rng, dim, own, allow_text=True):
@@ -415,7 +428,9 @@ def diff(a, b, path=""):
     """first difference between two views (None when equal); numbers exact or within 1e-12 relative"""
     if isinstance(a, Fraction) or isinstance(b, Fraction):
         try:
-            if a == b or close(float(a), b, rel=1e-12):
+            # values are carried without arithmetic through every route (repr round trip): exact, up to 2 ulp for the few
+            # places where the package converts units on the way (string items of arrays)
+            if a == b or close(float(a), b, rel=4.5e-16):
                 return None
         except Exception:  # noqa
             pass
@@ -482,6 +497,80 @@ def relpath(p):
     return os.path.relpath(p, os.getcwd())
 
 
+# ---- loading from a working directory that holds DECOY files: same relative names, different content
+_QTXT = None
+
+
+def perturb(j):
+    """a different but equally readable content (numbers of arrays shifted, quantity values + 1)"""
+    import re
+    global _QTXT
+    if _QTXT is None:
+        _QTXT = re.compile(r"^\s*([-+]?[0-9][0-9.eE+-]*)\s+(\S.*)$")
+    if isinstance(j, dict):
+        return {k: (v if k in ("w", "h", "d", "units", "nodes") and not isinstance(v, (dict, list)) else perturb(v)) if k != "units" else v
+                for k, v in j.items()}
+    if isinstance(j, list):
+        if j and all(isinstance(v, bool) or isinstance(v, int) for v in j):
+            return [(1 - v) if v in (0, 1) else v for v in j] if all(v in (0, 1) for v in j) else list(j)
+        if j and all(isinstance(v, (int, float)) and not isinstance(v, bool) for v in j):
+            return [float(v) + 1.0 for v in j]
+        return [perturb(v) for v in j]
+    if isinstance(j, str):
+        mm = _QTXT.match(j)
+        if mm:
+            try:
+                return "%r %s" % (float(mm.group(1)) + 1.0, mm.group(2))
+            except ValueError:
+                return j
+    return j
+
+
+class DecoyCwd:
+    """chdir into a fresh directory holding, for every file below `layout` (mirrored tree + flattened copies), a decoy with
+    the same relative name and perturbed content; the previous working directory is restored on exit"""
+
+    def __init__(self, layout):
+        self.layout = layout
+
+    def __enter__(self):
+        import numpy as np
+        self.old = os.getcwd()
+        self.d = tempfile.mkdtemp(prefix="verif_c12_decoy_")
+        for root, _, files in os.walk(self.layout):
+            for f in files:
+                src = os.path.join(root, f)
+                rel = os.path.relpath(src, self.layout)
+                for target in {rel, f}:
+                    dst = os.path.join(self.d, target)
+                    os.makedirs(os.path.dirname(dst) or self.d, exist_ok=True)
+                    try:
+                        if f.endswith(".npy"):
+                            a = np.load(src)
+                            np.save(dst, (1 - a) if (a.dtype.kind in "iu" and a.size and set(a.tolist()) <= {0, 1}) else a + 1)
+                        elif f.endswith(".json"):
+                            with open(dst, "w", encoding="utf-8") as g:
+                                json.dump(perturb(json.load(open(src, encoding="utf-8"))), g)
+                        else:
+                            toks = open(src).read().replace(",", " ").split()
+                            with open(dst, "w") as g:
+                                g.write(" ".join(str(1 - int(t)) if t in ("0", "1") else t for t in toks))
+                    except Exception:  # noqa
+                        shutil.copy(src, dst)
+        os.chdir(self.d)
+        return self.d
+
+    def __exit__(self, *a):
+        os.chdir(self.old)
+        shutil.rmtree(self.d, ignore_errors=True)
+
+
+def load_from_decoy_cwd(load, path, layout, relative=False):
+    """load `path` while the working directory holds decoys of every file of the layout"""
+    with DecoyCwd(layout):
+        return load(os.path.relpath(path, os.getcwd()) if relative else path)
+
+
 # ---- one round-trip mode on the real code: returns (reloaded object, dictionary form or None)
 def do_mode(kind, mode, x, tmp):
     m = S()
@@ -490,8 +579,9 @@ def do_mode(kind, mode, x, tmp):
         p = os.path.join(tmp, name)
         pp = relpath(p) if mode == "file-rel" else p
         m["ro"].save_rdtrajectory(x, pp, separate_data=(mode != "file-inline"))
-        lp = pp if pp.endswith(".json") else pp + ".json"
-        return m["ro"].load_rdtrajectory(lp), json.load(open(p if p.endswith(".json") else p + ".json", encoding="utf-8"))
+        jp = p if p.endswith(".json") else p + ".json"
+        saved = json.load(open(jp, encoding="utf-8"))
+        return load_from_decoy_cwd(m["ro"].load_rdtrajectory, jp, tmp, relative=(mode == "file-rel")), saved
     to_d, from_d, save, load = conv(kind)
     if mode == "direct":
         d = to_d(x)
@@ -503,7 +593,8 @@ def do_mode(kind, mode, x, tmp):
         p = os.path.join(tmp, "obj.json")
         pp = relpath(p) if mode == "file-rel" else p
         save(x, pp)
-        return load(pp), json.load(open(p, encoding="utf-8"))
+        saved = json.load(open(p, encoding="utf-8"))
+        return load_from_decoy_cwd(load, p, tmp, relative=(mode == "file-rel")), saved
     raise ValueError(mode)
 
 
@@ -620,6 +711,35 @@ DOC_DEFAULTS = {
     ("script", "sampling_interval"): 1, ("script", "init_state_processing"): "auto", ("script", "units"): "default",
     ("unitsSystem", "space"): "µm", ("unitsSystem", "time"): "s", ("unitsSystem", "quantity"): "molecule",
 }
+
+
+def parent_units(subs, path):
+    """explicit units dictionary of the dictionary that encloses the one at `path` (None when it is not spelled out)"""
+    import re
+    pp = re.sub(r"\.[^.]*$", "", path)
+    for (dk, dd, p2) in subs:
+        if p2 == pp and dk != "unitsSystem":
+            u = dd.get("units")
+            return dict(u) if isinstance(u, dict) and len(u) == 3 else None
+    return None
+
+
+QTY_OF = {"species": ["D", "density"], "reaction": ["k+", "k-"], "grid": ["cell_volume"], "node": ["volume"],
+          "edge": ["surface", "distance"]}
+
+
+def bare_numbers(dk, dd):
+    """replace the quantity texts of one dictionary by bare numbers (read in that dictionary's units system)"""
+    def num(v):
+        if isinstance(v, str):
+            try:
+                return float(v.split()[0])
+            except (ValueError, IndexError):
+                return v
+        return v
+    for k in QTY_OF.get(dk, []):
+        if k in dd:
+            dd[k] = {kk: num(vv) for kk, vv in dd[k].items()} if isinstance(dd[k], dict) else num(dd[k])
 
 
 def sub_dicts(kind, d):
@@ -772,17 +892,17 @@ def run_mode(kind, mode, x, ref, spec, tmp, aliases, rng, case):
             bits = [rng.randint(0, 1) for _ in range(16)]
             case["bits"] = bits
         load = conv(kind)[3]
-        res, err = guarded(lambda: load(write_multifile(kind, x, tmp, bits)))
+        res, err = guarded(lambda: load_from_decoy_cwd(load, write_multifile(kind, x, tmp, bits), tmp))
         if err is not None:
-            return fail("multifile:%s:raises" % kind, "loading a multi-file layout of a %s raises %s" % (kind, err), impl=err,
+            return fail("multifile:%s:raises" % kind, "loading a multi-file layout of a %s (from a working directory holding files with the same relative names but other content) raises %s" % (kind, err), impl=err,
                         extra={"bits": bits})
         df = diff(ref, VIEW[kind](res))
         if df:
-            return fail("multifile:%s:%s" % (kind, field_of(df[0])), "multi-file layout of a %s differs from the inline one at %s" % (kind, df[0]),
+            return fail("multifile:%s:%s" % (kind, field_of(df[0])), "multi-file layout of a %s (loaded from a working directory holding files with the same relative names but other content) differs from the inline one at %s" % (kind, df[0]),
                         impl=df[2], expected=df[1], extra={"bits": bits})
         # relative path to the top file as well
         top = os.path.join(tmp, "system.json" if kind == "system" else "script.json")
-        res, err = guarded(lambda: load(relpath(top)))
+        res, err = guarded(lambda: load_from_decoy_cwd(load, top, tmp, relative=True))
         if err is not None or diff(ref, VIEW[kind](res)):
             return fail("multifile:%s:relative-top" % kind, "loading the same layout through a relative path differs / raises", impl=err,
                         extra={"bits": bits})
@@ -812,7 +932,7 @@ def run_mode(kind, mode, x, ref, spec, tmp, aliases, rng, case):
         inline, err = guarded(lambda: VIEW[kind](from_d(copy.deepcopy(d), base_path=tmp)))
         if err is not None:
             return True, {}      # e.g. a quantity text whose units no longer fit: rejected inline, nothing to compare
-        res, err = guarded(lambda: VIEW[kind](load(write_multifile(kind, x, tmp, bits[:16], d_given=d))))
+        res, err = guarded(lambda: VIEW[kind](load_from_decoy_cwd(load, write_multifile(kind, x, tmp, bits[:16], d_given=d), tmp)))
         if err is not None:
             return fail("multifile:%s:raises" % kind, "a dictionary that loads inline raises %s when spread over files" % err, impl=err,
                         extra={"bits": bits})
@@ -820,6 +940,53 @@ def run_mode(kind, mode, x, ref, spec, tmp, aliases, rng, case):
         if df:
             return fail("multifile:%s:%s" % (kind, field_of(df[0])), "a %s dictionary with inherited units loaded from several files differs from the same dictionary inline at %s" % (kind, df[0]),
                         impl=df[2], expected=df[1], extra={"bits": bits})
+        return True, {}
+    if mode == "units-strings":
+        # the STRING forms of "units" at a nested level: "default" = µm/s/molecule whatever the parent, "inherit" = the parent's;
+        # the quantities of that dictionary are given as bare numbers, so that the units system decides their SI value
+        to_d, from_d = conv(kind)[:2]
+        d = jsonable_dict(to_d(x))
+        subs = sub_dicts(kind, d)
+        choice = case.get("units_string")
+        if choice is None:
+            cands = []
+            for (dk, dd, path) in subs:
+                if dk in ("species", "reaction", "network", "grid", "graph", "node", "edge", "system") and path != "":
+                    par = parent_units(subs, path)
+                    if par is not None:
+                        for form in ("default", "inherit"):
+                            cands.append([path, dk, form, rng.choice(aliases.get(dk, [["units"]])[-1] if aliases.get(dk) else ["units"])])
+            # prefer parents whose units are not the default ones
+            strong = [c for c in cands if parent_units(subs, c[0]) != {"space": "µm", "time": "s", "quantity": "molecule"}]
+            cands = strong or cands
+            if not cands:
+                return True, {}
+            choice = cands[rng.randrange(len(cands))]
+            case["units_string"] = choice
+        path, dk, form, key = choice
+        par = parent_units(subs, path)
+        expl = {"space": "µm", "time": "s", "quantity": "molecule"} if form == "default" else dict(par)
+        d_str, d_exp = copy.deepcopy(d), copy.deepcopy(d)
+        for dd_, val in ((d_str, form), (d_exp, expl)):
+            for (dk2, dd, p2) in sub_dicts(kind, dd_):
+                if p2 == path and dk2 == dk:
+                    bare_numbers(dk, dd)
+                    for k in ("units", "units_system", "units system", "u"):
+                        dd.pop(k, None)
+                    dd[key if val is form else "units"] = val
+        r1, e1 = guarded(lambda: VIEW[kind](from_d(d_str)))
+        r2, e2 = guarded(lambda: VIEW[kind](from_d(d_exp)))
+        if e1 is not None and e2 is not None:
+            return True, {}
+        if e1 is not None or e2 is not None:
+            return fail("units-string:%s:%s" % (dk, form), "a %s dictionary with %r: %r under a parent in %s is %s while the explicit units dictionary %s is %s"
+                        % (dk, key, form, par, "rejected (%s)" % e1 if e1 else "accepted", expl, "rejected (%s)" % e2 if e2 else "accepted"),
+                        impl=e1 or e2, extra={"units_string": choice})
+        df = diff(r2, r1)
+        if df:
+            return fail("units-string:%s:%s" % (dk, form),
+                        "a %s dictionary with %r: %r nested under a parent declared in %s is not read like the explicit units %s: %s differs"
+                        % (dk, key, form, par, expl, df[0]), impl=df[2], expected=df[1], extra={"units_string": choice})
         return True, {}
     if mode == "alias":
         to_d, from_d = conv(kind)[:2]
@@ -924,7 +1091,7 @@ def check_file_names(ctx, specs, names, separate, replaying=False):
                 if ref_name != st + "_data.npy":
                     return fail("filenames:trajectory:data-ref", "the file written for %r refers to the data file %r instead of %r" % (nm, ref_name, st + "_data.npy"),
                                 impl=ref_name, expected=st + "_data.npy")
-            y, err = guarded(lambda: m["ro"].load_rdtrajectory(jp))
+            y, err = guarded(lambda: load_from_decoy_cwd(m["ro"].load_rdtrajectory, jp, tmp, relative=(i % 2 == 1)))
             if err is not None:
                 return fail("filenames:trajectory:raises", "loading %s.json (saved next to %s) raises %s" % (st, [n for n in names if n != nm], err), impl=err)
             df = diff(refs[i], VIEW["trajectory"](y))
@@ -1162,11 +1329,11 @@ def check_zero_case(sides, text):
     return True, {}
 
 
-MODES = {"network": ["direct", "json", "file-abs", "file-rel", "reserialise", "alias", "default"],
+MODES = {"network": ["direct", "json", "file-abs", "file-rel", "reserialise", "alias", "default", "units-strings"],
          "grid": ["direct", "json", "file-abs", "file-rel", "reserialise", "alias", "default"],
-         "graph": ["direct", "json", "file-abs", "file-rel", "reserialise", "alias"],
-         "system": ["direct", "json", "file-abs", "file-rel", "reserialise", "alias", "default", "multifile", "multifile-inherit"],
-         "script": ["direct", "json", "file-abs", "file-rel", "reserialise", "alias", "default", "multifile", "multifile-inherit"],
+         "graph": ["direct", "json", "file-abs", "file-rel", "reserialise", "alias", "units-strings"],
+         "system": ["direct", "json", "file-abs", "file-rel", "reserialise", "alias", "default", "multifile", "multifile-inherit", "units-strings"],
+         "script": ["direct", "json", "file-abs", "file-rel", "reserialise", "alias", "default", "multifile", "multifile-inherit", "units-strings"],
          "trajectory": ["file-abs", "file-rel", "file-inline"]}
 
 
@@ -1251,8 +1418,30 @@ def special_cases(ctx):
           "time_step": {"v": 0.5}, "t_max": "default", "policy": "on_t_sample", "interval": {"v": 1.0}, "seed": 1, "mode": "auto"}
     cases.append(("trajectory", dict(base_traj, script=sc, cgmap=[0, 1], cgmap_np=True), ["file-abs"]))
     cases.append(("trajectory", dict(base_traj, script=sc, cgmap=[0, 1]), ["file-abs", "file-rel", "file-inline"]))
+    # models declared in coarse units with physically ordinary sizes: the numbers carried are 1e-12 … 1e-30, plus many-digit values
+    for us in (["m", "s", "mol"], ["km", "h", "kmol"], ["m", "h", "mol"]):
+        net = {"us": us, "envs": ["cyt", "mem"],
+               "species": [{"label": "A", "us": us, "D": {"scalar": {"v": 5e-13}}, "density": {"env": [["cyt", {"v": 1.0 / 3.0}], ["default", {"v": 2.5e-19}]]},
+                            "chstt": {"scalar": False}},
+                           {"label": "B", "us": us, "D": {"env": [["mem", {"v": 3.3e-16}], ["default", {"v": 0.1 + 0.2}]]}, "density": {"scalar": {"v": 1e-21}},
+                            "chstt": {"scalar": False}}],
+               "reactions": [{"sub": [["A", 1], ["B", 1]], "prod": [["B", 2]], "us": us, "label": "r", "kf": {"scalar": {"v": 3.2e-13}},
+                              "kr": {"env": [["cyt", {"v": 1e-30}], ["mem", {"v": 123.45678901234567}]]}}]}
+        grid = {"type": "grid", "us": us, "w": 2, "h": 1, "d": 1, "cell_env": {"array": [0, 1]}, "cell_vol": {"v": 1e-18}, "bc": {}}
+        graph = {"type": "graph", "us": us, "nodes": [{"us": us, "volume": {"v": 2.5e-19}, "env": 0}, {"us": ["µm", "s", "molecule"], "volume": {"v": 1.0 / 3.0}, "env": 1}],
+                 "edges": [{"us": us, "i": 0, "j": 1, "surface": {"v": 1e-12}, "distance": {"v": 7.7e-7}}]}
+        for sp_ in (grid, graph):
+            sysm = {"us": us, "network": net, "space": sp_, "state": {"values": [1e-21, 2.0 / 3.0, 6.02214076e23 / 7.0, 3e-14]}, "chemostats": [0, 0, 1, 0]}
+            cases.append(("system", sysm, ["direct", "json", "file-abs", "file-rel", "reserialise", "multifile"]))
+            scr = {"us": us, "system": sysm, "t_sample": {"values": [0.0, 1e-15, 1.0 / 3.0]}, "time_step": {"v": 1e-16},
+                   "t_max": {"v": 0.1 + 0.2}, "policy": "on_interval", "interval": {"v": 2.5e-14}, "seed": 2 ** 32 - 1, "mode": "none"}
+            cases.append(("script", scr, ["direct", "json", "file-abs", "reserialise"]))
+            cases.append(("trajectory", {"script": scr, "system": sysm, "t": {"values": [0.0, 1e-15], "sys": us},
+                                         "data": {"values": [1e-21, 2.0 / 3.0, 1e-13 / 3.0, 3e-14, 0.0, 1e-30, 0.1 + 0.2, 5e-13], "sys": us},
+                                         "engine_description": None, "engine_option": None, "cgmap": None, "cgmap_np": False},
+                          ["file-abs", "file-inline"]))
     for kind, spec, modes in cases:
-        check_object(ctx, kind, spec, modes, {}, None)
+        check_object(ctx, kind, spec, modes, {}, ctx.rng)
     # omitted keys of hand-written minimal dictionaries vs the documentation
     minimal_dict_checks(ctx)
 
@@ -1312,6 +1501,39 @@ def minimal_dict_checks(ctx):
                 and sys_t(s.D.units.sys) == ("mm", "min", "mol") and sys_t(r.kf.units.sys) == ("mm", "min", "mol") and r.kr.value == 0
                 and r.label is None) or "units not inherited"
     chk("default:network:units", "omitted units are not inherited from the parent", f, {"kind": "minimal", "name": "network-inherit"})
+
+    # the string forms of "units" under a parent in nm / ms / mol: "default" = µm, s, molecule ; "inherit" = the parent's
+    for key in ("units", "u", "units_system", "units system"):
+        def f(key=key):
+            par = {"space": "nm", "time": "ms", "quantity": "mol"}
+            n = m["rn"].rdnetwork_from_dict({"units": par, "species": [{"label": "A", "D": 1.5, key: "default"}, {"label": "B", "D": 1.5, key: "inherit"}],
+                                             "reactions": [{"eq": "A -> B", "k+": 2, key: "default"}]})
+            a, b, r = n.species[0], n.species[1], n.reactions[0]
+            got = {"A": (sys_t(a.units_system), float(v_uv(a.D)["si"])), "B": (sys_t(b.units_system), float(v_uv(b.D)["si"])),
+                   "r": (sys_t(r.units_system), float(v_uv(r.kf)["si"]))}
+            return (sys_t(a.units_system) == DEFAULT_SYS and v_uv(a.D)["si"] == Fraction(3, 2) * si_factor(DEFAULT_SYS, DIM["D"])
+                    and sys_t(b.units_system) == ("nm", "ms", "mol") and v_uv(b.D)["si"] == Fraction(3, 2) * si_factor(("nm", "ms", "mol"), DIM["D"])
+                    and sys_t(r.units_system) == DEFAULT_SYS and v_uv(r.kf)["si"] == 2 * si_factor(DEFAULT_SYS, kdim(1))) or got
+        chk("units-string:network:%s" % key.replace(" ", "_"), "species / reaction with %r: \"default\" / \"inherit\" inside a network declared in nm, ms, mol: "
+            "\"default\" must mean µm, s, molecule and \"inherit\" nm, ms, mol; got" % key, f, {"kind": "minimal", "name": "units-string-" + key})
+
+    def f():
+        par = {"space": "mm", "time": "min", "quantity": "nmol"}
+        s_ = m["rsy"].rdsystem_from_dict({"units": par, "network": {"units": "default", "species": [{"label": "A", "density": 2}]},
+                                          "space": {"units": "default", "cell_volume": 3}})
+        g = m["rsy"].rdsystem_from_dict({"units": par, "network": {"species": [{"label": "A"}]},
+                                         "space": {"type": "graph", "units": par, "nodes": [{"volume": 3, "units": "default"}, {"volume": 3}],
+                                                   "edges": [{"nodes": [0, 1], "surface": 2, "distance": 4, "units": "default"}]}})
+        got = {"net": sys_t(s_.network.units_system), "grid": (sys_t(s_.space.units_system), float(v_uv(s_.space.cell_vol)["si"])),
+               "node0": float(v_uv(g.space.nodes[0].volume)["si"]), "node1": float(v_uv(g.space.nodes[1].volume)["si"]),
+               "edge": float(v_uv(g.space.edges[0].surface)["si"])}
+        return (sys_t(s_.network.units_system) == DEFAULT_SYS and sys_t(s_.space.units_system) == DEFAULT_SYS
+                and v_uv(s_.space.cell_vol)["si"] == 3 * si_factor(DEFAULT_SYS, DIM["volume"])
+                and v_uv(g.space.nodes[0].volume)["si"] == 3 * si_factor(DEFAULT_SYS, DIM["volume"])
+                and v_uv(g.space.nodes[1].volume)["si"] == 3 * si_factor(("mm", "min", "nmol"), DIM["volume"])
+                and v_uv(g.space.edges[0].surface)["si"] == 2 * si_factor(DEFAULT_SYS, DIM["surface"])) or got
+    chk("units-string:system:default", "network / grid / graph node / edge with \"units\": \"default\" inside a system declared in mm, min, nmol must be in µm, s, molecule; got",
+        f, {"kind": "minimal", "name": "units-string-system"})
 
     # system without "space": documented = default grid whose units system is inherited from the system
     def f():
